@@ -506,6 +506,9 @@ def h_type_units(ctx):
     little = cfg['little']
     ab = abbrev_table([(1, T.TAG_CU, True, []), (2, T.TAG_VAR, False, [(T.AT['const_value'], 0x0b)]), (3, T.TAG_VAR, False, [(T.AT['type'], 0x20)])])
     sigs = [0x1111, 0x8000000000000002, 0x33]
+    if cfg.get('dup'):
+        # the same type emitted by two translation units and not folded (ld -r, no COMDAT folding): two units carry one signature
+        sigs = [0x1111, 0x8000000000000002, 0x1111]
     types, tu_offs = [], []
     for i, sg in enumerate(sigs):
         hp, hsz = unit_header(4, False, little, 8, 0, tu=True, body_len=0)
@@ -542,7 +545,11 @@ def h_type_units(ctx):
     ctx.outcome('ok')
     got = answers(di)
     ctx.check_eq('L7/type-units/%s/equals-cold' % sched.split(':')[0], got, cold)
-    ctx.check_eq('L7/type-units/offsets', [a[0] for a in got[:3]], tu_offs)
+    if not cfg.get('dup'):
+        ctx.check_eq('L7/type-units/offsets', [a[0] for a in got[:3]], tu_offs)
+    # the enumeration lists the units that are encoded, one per unit header, whatever was looked up by signature before
+    ctx.check_eq('L7/type-units/%s/enumeration-after-lookups' % sched.split(':')[0], got[-1], tu_offs)
+    ctx.check_eq('L7/type-units/enumeration-cold', [t.tu_offset for t in fresh().iter_TUs()], tu_offs)
 
 
 # ------------------------------------------------------------------ L3 memo tables
@@ -832,7 +839,7 @@ HARNESSES = [
       decoy='all', expect=('ok',),
       desc='L6: a v5 line-program header decoded after another header whose entry formats have the same forms but other content types (decoy run in the same path) '
            'gives the cold answer (harness shared with C05)'),
-    H('h10_L7_type_units', h_type_units, lambda tier: [dict(little=l, schedule=sc) for l in (True, False) for sc in ('cold', 'steps:0', 'steps:1', 'steps:2', 'full', 'lookup-last-first')],
+    H('h10_L7_type_units', h_type_units, lambda tier: [dict(little=l, schedule=sc, dup=d) for l in (True, False) for d in (False, True) for sc in ('cold', 'steps:0', 'steps:1', 'steps:2', 'full', 'lookup-last-first')],
       expect=('ok',), decoy=-1,
       desc='L7: type units found by signature, references through DW_FORM_ref_sig8 and the unit list after iter_TUs() was abandoned after 0-2 steps, run to the end, or after a lookup: cold answers (ground)'),
     H('h10_L3_dwarf_info_per_arguments', C8.h_plumbing, lambda tier: [dict(relname='.rela.debug_info', relocate=r, order='after', history=True) for r in (True, False)], expect=('ok',),
